@@ -36,8 +36,16 @@ func genSeries(r *hx.Rand) Series {
 	return s
 }
 
+// a tag key no series ever carries: predicates on it take the index paths for "key unknown in
+// this measurement" (tsi1: no tag-value iterator at all; inmem: an empty one), where a missing
+// tag must still read as the empty value
+const absentKey = "zone"
+
 func genLeaf(r *hx.Rand) *Pred {
 	k := uKeys[r.Intn(len(uKeys))]
+	if r.Chance(15) {
+		k = absentKey
+	}
 	switch r.Intn(8) {
 	case 0, 1:
 		return &Pred{T: "eq", K: k, V: uVals[r.Intn(len(uVals))]}
@@ -929,6 +937,10 @@ func battery(nsh int, ms ...string) []Op {
 		q(Query{Kind: "tagvals", M: m, K: "region"})
 		q(Query{Kind: "tagvals", M: m, K: "host", Cond: &Pred{T: "neq", K: "region", V: ""}})
 		q(Query{Kind: "series", M: m})
+		// a key the measurement never had: the empty string satisfies these, so every series is selected
+		q(Query{Kind: "series", M: m, Cond: &Pred{T: "re", K: absentKey, V: "^$|east"}})
+		q(Query{Kind: "tagvals", M: m, K: "host", Cond: &Pred{T: "re", K: absentKey, V: ".*"}})
+		q(Query{Kind: "series", M: m, Cond: &Pred{T: "nre", K: absentKey, V: "."}})
 		q(Query{Kind: "series", M: m, Cond: &Pred{T: "eq", K: "host", V: "a"}})
 		q(Query{Kind: "series", M: m, Cond: &Pred{T: "or", L: &Pred{T: "re", K: "host", V: "^a"}, R: &Pred{T: "eq", K: "region", V: ""}}})
 		for sh := 1; sh <= nsh; sh++ {
